@@ -12,7 +12,7 @@ from pymbolic.parser import Parser as ParserBase
 from pymbolic.mapper import Mapper
 import pymbolic.primitives as pmbl
 from pymbolic.parser import (
-    _openpar, _closepar, _minus, FinalizedTuple, _PREC_UNARY,
+    _openpar, _closepar, _minus, FinalizedTuple,
     _PREC_TIMES, _PREC_PLUS, _PREC_CALL, _times, _plus
 )
 try:
@@ -296,7 +296,8 @@ class ExpressionParser(ParserBase):
 
         if pstate.is_next(_minus):
             pstate.advance()
-            left_exp = pmbl.Product((-1, self.parse_expression(pstate, _PREC_UNARY)))
+            # In Fortran, exponentiation binds tighter than the unary minus: -a**b is -(a**b)
+            left_exp = pmbl.Product((-1, self.parse_expression(pstate, _PREC_TIMES)))
             return left_exp
         if pstate.is_next(_openpar):
             pstate.advance()
